@@ -76,6 +76,13 @@ class Gen:
 
   def leaf(self):
     r = self.r
+    if r.random() < 0.3:
+      # strings (also inside containers) that resemble other literals, keywords or syntax
+      words = ['true', 'false', 'True', 'None', 'TRUE', 'false alarms per hour', 'it is true', 'nan', '1e3',
+               '[1, 2]', '{}', '"double"', 'x # y', 'line\nbreak', 'tab\there', 'a\\b', '--flag', ' lead',
+               'trail ', 'config:x', '0', '-1', 'lambda: 1', "'"]
+      w = r.choice(words)
+      return r.choice([w, w, [w, 1], {'k': w}, (w, True), [[w]], 10 ** 20, -2.5e-7, b'by\x00tes', 1e100])
     return r.choice([0, 1, -3, 2.5, 'text', '', 'with space', None, True, False, 'é', [1, 2], (1, 's'),
                      {'a': 1}, [], 'a=b', "it's"])
 
@@ -190,7 +197,13 @@ def run_paths(case):
     except Exception as e:
       wb.append([p, f'parent does not resolve: {type(e).__name__}'])
       continue
-    new = r.choice([41, 'new text', [9, 8], None, 2.25, {'z': 1}, False])
+    x = r.random()
+    if x < 0.35:
+      new = v                       # the printed value itself: writing it back changes nothing
+    elif x < 0.6:
+      new = Gen(r).leaf()
+    else:
+      new = r.choice([41, 'new text', [9, 8], None, 2.25, {'z': 1}, False])
     c2 = copy.deepcopy(cfg)
     try:
       flag_utils.set_value(c2, f'{p}={new!r}')
@@ -283,11 +296,22 @@ def run_flags(case):
     return real_set(cfg, assignment)
   fdl_flags.utils.set_value = spy
   flag = new_flag()
+  # a second flag of the same process whose directives are pending while the first one is
+  # parsed and read (each flag applies ITS OWN command line)
+  other = None
+  if r.random() < 0.5:
+    other = fdl_flags.FiddleFlag(name='other_cfg', default_module=MODULE, default=None,
+                                 parser=absl_flags.ArgumentParser(), serializer=None, help_string='t')
+    other.parse(['config:base_b'])
   outs = []
+  n_other_sets = 0
   try:
     for step in script:
       if step[0] == 'parse':
         flag.parse([f'{c}:{e}' for c, e in step[1]])
+        if other is not None and r.random() < 0.5:
+          other.parse(['set:q=77'])
+          n_other_sets += 1
         outs.append('ok')
       elif step[0] == 'value':
         try:
@@ -298,6 +322,14 @@ def run_flags(case):
   finally:
     fdl_flags.utils.set_value = real_set
   obs = {'outs_real': outs, 'applied': [list(x) for x in APPLIED], 'directives': directives}
+  if other is not None:
+    try:
+      want = base_b()
+      if n_other_sets:
+        want.q = 77
+      obs['other_flag'] = graphs.canon(other.value) == graphs.canon(want)
+    except Exception as e:
+      obs['other_flag'] = f'raised {type(e).__name__}'
   # independent expectation: the fold over the command line
   del APPLIED[:]
   cur = None
@@ -404,6 +436,9 @@ def oracle(case, real):
               'applied': real['applied'], 'command_line': real['directives']}
     if real['final'] != real['expected_final']:
       return {'what': 'flag value differs from applying the command line in order'}
+    if real.get('other_flag', True) is not True:
+      return {'what': 'a second flag with pending directives did not keep its own command line',
+              'observed': real['other_flag']}
     if real['config_str_roundtrip'] is not True:
       return {'what': 'a configuration serialized into a flag value does not parse back to an equal one',
               'observed': real['config_str_roundtrip']}
